@@ -45,6 +45,7 @@ let run_script cfgw ops =
       | [] -> ()
       | "I" :: k :: v :: r -> emit (show_out (st (OInsert (z k, z v, None)))); go r
       | "A" :: k :: v :: r -> emit (show_out (st (OAddAt (z k, z v)))); go r
+      | ("IF" | "IC") :: k :: v :: r -> emit (match st (OInsertFail (z k, z v)) with RExn -> "Xf" | x -> show_out x); go r
       | "Z" :: k :: v :: r -> emit (match st (OInsertNoMem (z k, z v)) with RExn -> "Xz" | x -> show_out x); go r
       | "J" :: k :: v :: n :: r -> emit (show_out (st (OInsert (z k, z v, Some (nat_of_int (int_of_string n)))))); go r
       | "F" :: k :: r -> emit (show_out (st (OFind (z k)))); go r
@@ -104,6 +105,21 @@ let () = iter_lines (fun line ->
   | ["cap"; pol; mc; log] ->
     let bc = two_pow (z log) in
     Printf.printf "%s %s\n" (sz (calc_capacity (z pol) (z mc) bc)) (sz (shift_fn (z pol) (z mc) bc))
+  | "n1" :: n :: rv :: ops ->
+    (* the generated BucketOpenN1 byte operations, applied to mData as a function Z -> Z *)
+    let mc = z n and rev = (rv = "1") in
+    let d = ref (Gen_OpenN1_ops.pvSetEmpty mc (fun _ -> z "0")) in
+    List.iter (fun o ->
+      let arg = if String.length o > 1 then z (String.sub o 1 (String.length o - 1)) else z "0" in
+      match o.[0] with
+      | 'a' -> if not (Gen_OpenN1_ops.coq_IsFull rev mc !d) then
+                 (match Gen_OpenN1_ops.coq_AddCrt rev mc !d arg (z "0") with GenPrelude.Ok (_, d') -> d := d' | _ -> ())
+      | 'r' -> if Z.lt (zarith_of_z arg) (zarith_of_z (Gen_OpenN1_ops.pvGetCount rev mc !d)) then
+                 (match Gen_OpenN1_ops.coq_Remove rev mc !d arg with GenPrelude.Ok (_, d') -> d := d' | _ -> ())
+      | 'c' -> d := Gen_OpenN1_ops.pvSetEmpty mc !d
+      | 'u' -> (match Gen_OpenN1.coq_UpdateMaxProbe mc !d arg with GenPrelude.Ok (_, d') -> d := d' | _ -> ())
+      | _ -> ()) ops;
+    print_endline (String.concat " " (List.init (int_of_string n + 1) (fun i -> sz (!d (z (string_of_int i))))))
   | "kf" :: which :: args ->
     let b2s b = if b then "1" else "0" in
     let four = z "4" in
